@@ -14,8 +14,8 @@ from .framework import *
 
 PROPERTY = 'C11'
 GEN_MODULES = ['literals']
-LEAN_TARGETS = ['ChibiVerif.Props.C11', 'ChibiVerif.Findings.C11']
-PROPS_FILES = ['ChibiVerif/Props/C11.lean']
+LEAN_TARGETS = ['ChibiVerif.Props.C11', 'ChibiVerif.Props.C11Lex', 'ChibiVerif.Findings.C11']
+PROPS_FILES = ['ChibiVerif/Props/C11.lean', 'ChibiVerif/Props/C11Lex.lean']
 NEEDS_HOOKS = False
 TRUSTED_BASE = [
     'Lean 4.33.0 kernel; axioms admitted: propext, Classical.choice, Quot.sound (audited per theorem on every run); '
@@ -31,10 +31,11 @@ TRUSTED_BASE = [
     'the differential run of every translated function against the compiled C function (exhaustive over all 0x110000 code points in the '
     'thorough tier)',
     'hand models lean/ChibiVerif/Model/Literals.lean (join_adjacent_string_literals / getStringKind, tokenize_string_literal: source text '
-    'pinned; the order of the literal arms of tokenize(); that convert_pp_int gets the token inside its text) and Model/Text.lean (read_file: '
-    'final newline), tied by in-process differential execution (testing).  The hand-written reader functions, phase loops, convert_pp_int, '
-    'pp-number scan and phase composition that the theorems are stated about are *proved equal* to the translated functions '
-    '(C11_translated_readers, C11_translated_literal_readers, C11_translated_phases, C11_translated_int, C11_translated_ppnumber, C11_phase_order)',
+    'pinned) and Model/Text.lean (read_file: final newline), tied by in-process differential execution (testing).  The hand-written reader '
+    'functions, phase loops, convert_pp_int, pp-number scan, literal dispatch (order of the arms, token in context vs copy) and phase '
+    'composition that the theorems are stated about are *proved equal* to the translated functions (C11_translated_readers, '
+    'C11_translated_literal_readers, C11_translated_phases, C11_translated_int, C11_translated_ppnumber, C11_translated_lex, C11_arm_order, '
+    'C11_phase_order)',
     'libc strtoul: a parameter of the translated convert_pp_int; the integer-constant theorems assume the contract StrtoulSpec (value of a '
     'digit run of the base, saturation to ULONG_MAX, end pointer), which is proved of the Lean model strtoulC (Model/PpNumber.lean) and '
     'tested on the real libc directly (`stl` operations against the model and against a python statement of the contract)',
@@ -1281,7 +1282,7 @@ MANIFEST = {
                   'in-process differential execution, including tokenize_file() as a whole on files with splices inserted anywhere; generated '
                   'programs are compiled by chibicc and gcc -std=c11 and compared.',
     'level_note': 'Trusted: Lean kernel (axioms propext, Classical.choice, Quot.sound), the translator, the remaining hand models (join / '
-                  'getStringKind, read_file final newline, order of the arms of tokenize(): tied by testing and by pinning their source '
+                  'getStringKind, read_file final newline: tied by testing and by pinning their source '
                   'text), Spec (validated against gcc 12 and python reference codecs), libc strtoul through a stated contract (model tested '
                   'against the real libc), strtold, <ctype.h> in the C locale.  '
                   'Floating-constant values are compared with gcc bit for bit but not modelled.  No open statement.  Types are stated '
